@@ -60,6 +60,11 @@ package ledger
 //   M4 applications.go NewBox: TotalBoxBytes incremented by size only (name forgotten)
 //   M5 appcow.go checkCounts: byte-slice limit `> maxCounts.NumByteSlice+1` (off by one, 2 steps)
 
+// Independent seeded changes (/verif/seeded): C23-A (SetAppGlobalSchema skips checkCounts when
+// the new schema's total is not smaller, so an update may shrink one type below its usage)
+// was MISSED by the first version (no application update) and is DETECTED since the
+// update operations were added (2 steps: global_put uint, update to (0,2)); C23-B DETECTED.
+
 import (
 	"errors"
 	"fmt"
@@ -1220,7 +1225,7 @@ func TestVerif_C23(t *testing.T) {
 		{"box/family/groups", &c23explore{e: envFamily, ops: c23familyAlphabet()}, ve.Pick(3, 4)},
 		{"box/flushed/groups", &c23explore{e: envFlushed, ops: boxOps}, ve.Pick(3, 4)},
 		{"box/app/onegroup", &c23explore{e: envApp, ops: boxOps, onegroup: true}, ve.Pick(4, 5)},
-		{"kv/bare/onegroup", &c23explore{e: envBare, ops: kvOps, onegroup: true}, ve.Pick(4, 5)},
+		{"kv/bare/onegroup", &c23explore{e: envBare, ops: kvOps, onegroup: true}, ve.Pick(3, 5)},
 		{"kv+update/bare/groups", &c23explore{e: envBare, ops: kvUpOps}, ve.Pick(3, 4)},
 	}
 	var cov ve.Coverage
